@@ -20,6 +20,8 @@ def enclosing_lemma(path, line):
 def queue_check(drv, violation, pid, cfg, info, seed, tier, viol_so_far):
     """returns (number of violations, evidence)"""
     coq = drv.COQ
+    if 'GenC12.v' in cfg['queue_proofs']:
+        return scan_check(drv, violation, pid, cfg, info, seed, tier, viol_so_far)
     ev = dict(translator=info.get('goqueue'), translator_pipes=info.get('gopipes'), queue_proofs=cfg['queue_proofs'],
               generated_class_functions=re.findall(r'Definition (gen_\w+) : list pstmt := \(\* (queue\.go:\d+) \*\)', open(os.path.join(coq, 'GenPipes.v')).read()) if os.path.exists(os.path.join(coq, 'GenPipes.v')) else None,
               generated=re.findall(r'Definition (gen_\w+) : list qstmt := \(\* (queue\.go:\d+) \*\)', open(os.path.join(coq, 'GenQueue.v')).read()))
@@ -47,6 +49,8 @@ def queue_check(drv, violation, pid, cfg, info, seed, tier, viol_so_far):
                                      output=out[-3000:]), 'no-failing-input-found')
             return 1, ev
         return 0, ev
+    if failed == 'GenC12.v':
+        return scan_explain(drv, violation, pid, cfg, info, seed, tier, viol_so_far, failed, out, ev)
     if failed == 'GenC06.v' or (failed and 'Pipe' in failed):
         return pipes_explain(drv, violation, pid, cfg, info, seed, tier, viol_so_far, failed, out, ev)
     # a lemma about the regenerated methods no longer checks: which one, and is there a schedule on which the machine
@@ -163,6 +167,90 @@ def pipes_explain(drv, violation, pid, cfg, info, seed, tier, viol_so_far, faile
         try:
             r = json.load(open(rp))
             r['generated_code_explanation'] = dict(lemma_that_no_longer_checks=lemma, at=where, statements_outside_the_subset=unknown, **found)
+            json.dump(r, open(rp, 'w'), indent=1)
+        except Exception:
+            pass
+    return 0, ev
+
+
+def scan_check(drv, violation, pid, cfg, info, seed, tier, viol_so_far):
+    """the proofs about the scanner's bookkeeping regenerated by tools/goscan (coq/GenScan.v): coq/GenC12.v"""
+    coq = drv.COQ
+    gs = open(os.path.join(coq, 'GenScan.v')).read()
+    ev = dict(translator_scan=info.get('goscan'), queue_proofs=cfg['queue_proofs'],
+              generated_scanner_methods=re.findall(r'Definition (gen_\w+) : list sstmt := \(\* (scanner\.go:\d+) \*\)', gs))
+    t0 = time.time()
+    failed, out = None, ''
+    with drv.Lock():
+        for f in cfg['queue_proofs']:
+            rc, out = drv.coqc_cached(f)
+            if rc != 0:
+                failed = f
+                break
+    ev['queue_proofs_s'] = round(time.time() - t0, 1)
+    if failed is None:
+        names = re.findall(r'Print Assumptions\s+(\w+)', open(os.path.join(coq, cfg['queue_proofs'][-1])).read())
+        ev['theorems'] = {f: re.findall(r'Print Assumptions\s+(\w+)', open(os.path.join(coq, f)).read()) for f in cfg['queue_proofs']}
+        txt = ' | '.join(l.rstrip() for l in out.split('\n') if l.strip())
+        ev['print_assumptions'] = 'Print Assumptions of %s (in order %s): %s' % (cfg['queue_proofs'][-1], ', '.join(names), txt)
+        bad = [l for l in out.split('\n') if l.strip() and 'Closed under the global context' not in l]
+        if bad or not names:
+            violation(drv, pid, dict(property=pid, seed=seed, tier=tier, case='scanproof', kind='proof-obligation',
+                                     theorem_or_correspondence='%s compiles but its theorems are not closed under the global context' % cfg['queue_proofs'][-1],
+                                     output=out[-3000:]), 'no-failing-input-found')
+            return 1, ev
+        return 0, ev
+    return scan_explain(drv, violation, pid, cfg, info, seed, tier, viol_so_far, failed, out, ev)
+
+
+def scan_explain(drv, violation, pid, cfg, info, seed, tier, viol_so_far, failed, out, ev):
+    """a lemma of coq/GenC12.v about the regenerated scanner bookkeeping no longer checks: which one, and is there a small
+    source on which the regenerated scanner and the model differ (coq/ScanSweep.v)?"""
+    coq = drv.COQ
+    m = re.search(r'File "[^"]*?([\w.]+\.v)", line (\d+), characters', out)
+    lemma = enclosing_lemma(os.path.join(coq, m.group(1)), int(m.group(2))) if m else None
+    where = '%s:%s' % (m.group(1), m.group(2)) if m else failed
+    ev['failed'] = dict(file=failed, lemma=lemma, at=where)
+    outdir = os.path.join(drv.BUILD, pid)
+    os.makedirs(outdir, exist_ok=True)
+    sw = os.path.join(outdir, 'scansweep.v')
+    open(sw, 'w').write('From Coq Require Import String List ZArith.\nFrom Verif Require Import Lexer ScanSweep.\n'
+                        'Definition W := Eval vm_compute in scan_sweep.\nPrint W.\n')
+    ts = time.time()
+    rc, sout = drv.run(['timeout', '900', 'coqc', '-R', coq, 'Verif', sw], cwd=outdir)
+    ev['sweep_s'] = round(time.time() - ts, 1)
+    mm = re.search(r'W =\s*(.*?)\n\s*: list', sout, re.S)
+    found = re.sub(r'\s+', ' ', mm.group(1)).strip() if mm else None
+    sources = []
+    if found not in (None, '[]', 'nil'):
+        # the sources as Go string literals, for the reader
+        for runes in re.findall(r'\(\(?\s*((?:\d+ :: )*nil|\[[\d; ]*\])\s*,', found):
+            nums = [int(x) for x in re.findall(r'\d+', runes)]
+            sources.append(''.join(chr(c) for c in nums))
+    gs = open(os.path.join(coq, 'GenScan.v')).read()
+    unknown = re.findall(r'SUnknown "((?:[^"]|"")*)"', gs)
+    ev['sweep'] = dict(differing_sources=found, as_text=sources, outside_subset=unknown)
+    common = dict(property=pid, seed=seed, tier=tier, kind='generated-code', lemma_that_no_longer_checks=lemma, at=where,
+                  coqc_output=out[-2500:], regenerated_scanner=gs[-6000:], rerun='./check %s' % pid,
+                  statements_outside_the_subset=unknown,
+                  explanation='coq/GenC12.v proves that the token / line / position bookkeeping regenerated from v4/cdcn/scanner.go (coq/GenScan.v, tools/goscan; meaning: coq/ScanSem.v, the regular-expression match taken from the model) '
+                              'produces for every source the token list of Lexer.lex, about which the C12 theorems are (indexOfLastEOL, one foundToken step, the order of the cases of scanTokens, the renaming table, the Error/EOF tail); '
+                              'the lemma named here no longer checks against the current source. differing sources: (runes of the source, tokens of the regenerated scanner or None when it panics / leaves the subset, tokens of the model), '
+                              'the shortest of all strings up to length 5 over the alphabet e-acute (two bytes), newline, double quote, 1, space, x')
+    if found not in (None, '[]', 'nil'):
+        violation(drv, pid, dict(common, case='scangen', failing_source_on_the_regenerated_scanner=found, failing_sources_as_text=sources,
+                                 what='on these sources the regenerated scanner, executed by the semantics of coq/ScanSem.v, emits tokens (type, text, line, position) different from the model the theorems are about (coq/ScanSweep.v)'))
+        return 1, ev
+    if viol_so_far == 0:
+        violation(drv, pid, dict(common, case='scangen', theorem_or_correspondence='the lemma %s of %s about the scanner bookkeeping regenerated from the current source no longer checks; neither the correspondence run on the real code nor the search over all sources up to length 5 found an input on which the tokens differ from the model' % (lemma, failed)),
+                  'no-failing-input-found')
+        return 1, ev
+    ev['explains_correspondence'] = True
+    import glob, json
+    for rp in glob.glob(os.path.join(drv.BUILD, 'replay', pid + '-*.json')):
+        try:
+            r = json.load(open(rp))
+            r['generated_code_explanation'] = dict(lemma_that_no_longer_checks=lemma, at=where, statements_outside_the_subset=unknown)
             json.dump(r, open(rp, 'w'), indent=1)
         except Exception:
             pass
